@@ -112,15 +112,19 @@ theorem loadRecord_congr (specs : List FieldSpec) (nested : Json → Except PyEx
 
 theorem kwargs_eq (r : Rec) (ps : List String) : LN.kwargs r ps = argsKnown r ps := rfl
 
-/-- Case analysis on the keyword arguments present, one parameter after the other; a branch where both sides have
-stopped with the same exception, or built the same object, closes by `rfl`. -/
-syntax "ctor_cases " ident : tactic
+/-- Case analysis on the keyword arguments present, one parameter after the other (`n`: how many parameters the model's
+constructor has); a branch where both sides have stopped with the same exception, or built the same object, closes by
+`rfl`. -/
+syntax "ctor_cases " ident num : tactic
 macro_rules
-  | `(tactic| ctor_cases $r) => `(tactic|
+  | `(tactic| ctor_cases $r $n) =>
+    match n.getNat with
+    | 0 => `(tactic| rfl)
+    | k + 1 => `(tactic|
       first
       | rfl
       | (generalize List.lookup _ $r = o
-         rcases o with _ | (_ | _ | _ | _ | _) <;> ctor_cases $r))
+         rcases o with _ | (_ | _ | _ | _ | _) <;> ctor_cases $r $(Lean.Syntax.mkNumLit (toString k))))
 
 /-- `Child.__init__` as translated (parameter list, defaults, `values or {}`) is the model's `Child(**data)`. -/
 theorem Child_init_eq (r : Rec) : GenNodeSchema.Child_init r = mkChild r := by
@@ -132,7 +136,7 @@ theorem Child_init_eq (r : Rec) : GenNodeSchema.Child_init r = mkChild r := by
   · rfl
   simp only [LN.argInt, LN.argStr, LN.argBool, LN.argStrDictOrNone, LN.argChildDictOrNone, Schema.argInt, Schema.argStr,
     Schema.argBool, Schema.argStrDict, Schema.argChildDict, LN.orEmpty, LN.pyIntOfInt]
-  ctor_cases r
+  ctor_cases r 4
 
 theorem ChildSchema_post_load_eq (r : Rec) : GenNodeSchema.ChildSchema_post_load r = mkChild r := by
   unfold GenNodeSchema.ChildSchema_post_load
@@ -149,7 +153,7 @@ theorem Node_init_eq (r : Rec) : GenNodeSchema.Node_init r = mkNode r := by
   · rfl
   simp only [LN.argInt, LN.argStr, LN.argBool, LN.argStrDictOrNone, LN.argChildDictOrNone, Schema.argInt, Schema.argStr,
     Schema.argBool, Schema.argStrDict, Schema.argChildDict, LN.orEmpty, LN.pyIntOfInt]
-  ctor_cases r
+  ctor_cases r 9
 
 theorem NodeSchema_post_load_eq (r : Rec) : GenNodeSchema.NodeSchema_post_load r = mkNode r := by
   unfold GenNodeSchema.NodeSchema_post_load
@@ -195,11 +199,10 @@ theorem ChildSchema_pre_load_eq (j : Json) : SameRes (LN.run GenNodeSchema.Child
     simp [GenNodeSchema.ChildSchema_pre_load, childPreLoad, LN.run, LN.bind, LN.seq, LN.contains, LN.pop, LN.getItem,
       LN.setItem, LN.skip, LN.pure, LN.retData, LN.isNone, ite_app, moveKey, has_vals, get?_vals, vals_set, vals_erase,
       h1, h2, SameRes, SameTop, SameDict]
-    all_goals first
-      | done
-      | (intro k
-         key_split k [cs!"id", cs!"type", cs!"child_id", cs!"child_type"] =>
-           (simp [vals_set, vals_erase, h1, h2, *]))
+    all_goals try (
+      intro (k : Str)
+      key_split k [cs!"id", cs!"type", cs!"child_id", cs!"child_type"] =>
+        (simp [vals_set, vals_erase, h1, h2, *]))
   | str s =>
     cases h1 : hasSub cs!"id" s <;> cases h2 : hasSub cs!"type" s <;>
     simp [GenNodeSchema.ChildSchema_pre_load, childPreLoad, LN.run, LN.bind, LN.seq, LN.contains, LN.pop, LN.getItem,
@@ -229,11 +232,10 @@ theorem NodeSchema_pre_load_eq (j : Json) : SameRes (LN.run GenNodeSchema.NodeSc
     simp [GenNodeSchema.NodeSchema_pre_load, nodePreLoad, LN.run, LN.bind, LN.seq, LN.contains, LN.pop, LN.getItem,
       LN.setItem, LN.skip, LN.pure, LN.retData, LN.isNone, ite_app, moveKey, nullToEmpty_eq, legacyGatewayType, has_vals,
       get?_vals, vals_set, vals_erase, SameRes, SameTop, SameDict, *]
-    all_goals first
-      | done
-      | (intro k
-         key_split k [cs!"sensor_id", cs!"type", cs!"node_id", cs!"node_type", cs!"sketch_name", cs!"sketch_version"] =>
-           (simp [vals_set, vals_erase, *]))
+    all_goals try (
+      intro (k : Str)
+      key_split k [cs!"sensor_id", cs!"type", cs!"node_id", cs!"node_type", cs!"sketch_name", cs!"sketch_version"] =>
+        (simp [vals_set, vals_erase, *]))
   | str s =>
     cases h1 : hasSub cs!"sensor_id" s <;> cases h2 : hasSub cs!"type" s <;>
     cases h3 : hasSub cs!"sketch_name" s <;> cases h4 : hasSub cs!"sketch_version" s <;>
